@@ -17,6 +17,7 @@ type JOp struct {
 	ID  int    `json:"id,omitempty"`  // spec id (rename, rmid)
 	New string `json:"new,omitempty"` // rename target
 	Arg string `json:"arg,omitempty"` // how a "tip" is realized on the real lake (ignored by the spec)
+	Pre int    `json:"pre"`           // number of preliminary HEAD reads before the decisive one (measured on the real code)
 }
 
 // JScenario is one parameter set of Journal.tla.
@@ -52,14 +53,18 @@ type JBehaviour struct {
 	Head     int            `json:"head"`
 }
 
-func (op JOp) tla() string {
+func (op JOp) tla(journal string) string {
+	open := 0
+	if journal == "branches" && op.K == "insert" {
+		open = 1 // CreateBranch opens the branches journal (a HEAD read that checks nothing) before its lookup
+	}
 	switch op.K {
 	case "rename":
-		return fmt.Sprintf(`[k |-> "rename", id |-> %d, new |-> %q]`, op.ID, op.New)
+		return fmt.Sprintf(`[k |-> "rename", id |-> %d, new |-> %q, pre |-> %d, open |-> 0]`, op.ID, op.New, op.Pre)
 	case "rmid":
-		return fmt.Sprintf(`[k |-> "rmid", id |-> %d]`, op.ID)
+		return fmt.Sprintf(`[k |-> "rmid", id |-> %d, pre |-> %d, open |-> 0]`, op.ID, op.Pre)
 	default:
-		return fmt.Sprintf(`[k |-> %q, key |-> %q]`, op.K, op.Key)
+		return fmt.Sprintf(`[k |-> %q, key |-> %q, pre |-> %d, open |-> %d]`, op.K, op.Key, op.Pre, open)
 	}
 }
 
@@ -76,7 +81,7 @@ func (s *JScenario) MCModule(mod string) string {
 	for i, ops := range s.Script {
 		var os []string
 		for _, o := range ops {
-			os = append(os, o.tla())
+			os = append(os, o.tla(s.Journal))
 		}
 		fmt.Fprintf(&b, "%d :> <<%s>>", i+1, strings.Join(os, ", "))
 		if i < len(s.Script)-1 {
